@@ -899,14 +899,24 @@ def rule_token_derivation_total(ctx, facts, rule):
                     if a["k"] in ("copy", "move") and root_local(g, a)[0] == dest:
                         users.append(g.term(x)["callee"])
             trunc = [u for u in users if TRUNC.search(u)]
-            allowed_first = g.path == "fastrace::collector::id::SpanContext::from_span"
+            allowed_first = re.sub(r"(::\{closure#[^}]*\})+$", "", g.path) == "fastrace::collector::id::SpanContext::from_span"
             ctx.check(not trunc or allowed_first, rule, g.path, g.loc(b),
                       "every item of the issuing span's token is carried over (collect / flat_map), so a descendant of a multi-parent "
                       "span is delivered in every parent's trace" + (" -- from_span is the one place that reads the first item only" if allowed_first else ""),
                       "consumers %s" % [u.rsplit("::", 1)[1] for u in users],
                       "the issued token is truncated by %s: descendants of a multi-parent span reach only one parent's trace" % trunc,
                       extra="total")
-    ctx.floor(rule, "fastrace::span::SpanInner::issue_collect_token", n, 4, "call sites of issue_collect_token")
+        # the method handed over by name: `.flat_map(SpanInner::issue_collect_token)` carries every item over as well
+        for b in g.calls():
+            t = g.term(b)
+            for a in t["args"]:
+                if a["k"] == "const" and str(a.get("fn", "")).endswith("span::SpanInner::issue_collect_token"):
+                    n += 1
+                    ctx.check(not TRUNC.search(t["callee"]), rule, g.path, g.loc(b),
+                              "every item of the issuing span's token is carried over (collect / flat_map), so a descendant of a multi-parent "
+                              "span is delivered in every parent's trace", "handed to %s" % t["callee"].rsplit("::", 1)[1],
+                              "issue_collect_token is handed to %s, which truncates" % t["callee"], extra="total-by-name")
+    ctx.floor(rule, "fastrace::span::SpanInner::issue_collect_token", n, 4, "uses of issue_collect_token")
     # the scope's re-issued token maps every stored item
     fn = facts.fn("fastrace::local::local_span_line::SpanLine::current_collect_token")
     if fn is not None:
